@@ -33,26 +33,78 @@ func parseFields(s string) modbus.Fields {
 
 func buildRequests(target int, fields modbus.Fields) ([]modbus.BuilderRequest, error) {
 	// the builder's own defaults must not reach fields added with AddAll ("AddAll does not set ServerAddress and UnitID")
-	b := modbus.NewRequestBuilder("dflt:9", 77).AddAll(fields)
-	switch target {
-	case 0:
-		return b.ReadCoilsTCP()
-	case 1:
-		return b.ReadCoilsRTU()
-	case 2:
-		return b.ReadDiscreteInputsTCP()
-	case 3:
-		return b.ReadDiscreteInputsRTU()
-	case 4:
-		return b.ReadHoldingRegistersTCP()
-	case 5:
-		return b.ReadHoldingRegistersRTU()
-	case 6:
-		return b.ReadInputRegistersTCP()
-	case 7:
-		return b.ReadInputRegistersRTU()
+	b := modbus.NewRequestBuilder("dflt:9", 77)
+	// the three ways of putting fields into a builder give the same requests: AddAll, Add of a wrapped field, and the
+	// typed constructors with their setters (which start from the builder's defaults and must end at the field's own values)
+	key := ""
+	for _, f := range fields {
+		key += f.Name + f.ServerAddress + string(rune(f.Address))
 	}
-	return nil, fmt.Errorf("no such target")
+	switch variantOf(key) % 3 {
+	case 1:
+		for _, f := range fields {
+			b.Add(&modbus.BField{Field: f})
+		}
+	case 2:
+		for _, f := range fields {
+			b.Add(fluentField(b, f))
+		}
+	default:
+		b.AddAll(fields)
+	}
+	call := func(t int) ([]modbus.BuilderRequest, error) {
+		switch t {
+		case 0:
+			return b.ReadCoilsTCP()
+		case 1:
+			return b.ReadCoilsRTU()
+		case 2:
+			return b.ReadDiscreteInputsTCP()
+		case 3:
+			return b.ReadDiscreteInputsRTU()
+		case 4:
+			return b.ReadHoldingRegistersTCP()
+		case 5:
+			return b.ReadHoldingRegistersRTU()
+		case 6:
+			return b.ReadInputRegistersTCP()
+		case 7:
+			return b.ReadInputRegistersRTU()
+		}
+		return nil, fmt.Errorf("no such target")
+	}
+	// building requests does not use the builder up: the requests of the other kind may have been built before, and
+	// building the same requests again gives the same requests
+	if variantOf(key+"pre")%2 == 1 {
+		_, _ = call((target + 4) % 8)
+	}
+	reqs, err := call(target)
+	reqs2, err2 := call(target)
+	// (which of several invalid groups is reported first depends on map iteration order: only success/failure is compared)
+	if (err == nil) != (err2 == nil) || (err == nil && reqsSig(target, reqs) != reqsSig(target, reqs2)) {
+		return nil, errBuilderChanged
+	}
+	return reqs, err
+}
+
+var errBuilderChanged = fmt.Errorf("BUILDER-CHANGED-BY-BUILDING")
+
+func reqsSig(target int, reqs []modbus.BuilderRequest) string {
+	cp := append([]modbus.BuilderRequest{}, reqs...)
+	sortRequests(cp)
+	parts := make([]string, len(cp))
+	for i, r := range cp {
+		bs := r.Bytes()
+		if target%2 == 0 && len(bs) >= 2 {
+			bs[0], bs[1] = 0, 0
+		}
+		names := make([]string, len(r.Fields))
+		for j, f := range r.Fields {
+			names[j] = f.Name
+		}
+		parts[i] = fmt.Sprintf("%s|%d|%d|%d|%s|%s", r.ServerAddress, r.UnitID, r.StartAddress, reqQuantity(r.Request), hx(bs), strings.Join(names, ","))
+	}
+	return strings.Join(parts, ";")
 }
 
 func reqQuantity(r packet.Request) int {
@@ -94,6 +146,9 @@ func execSplit(ts []string) string {
 	target := atoi(ts[1])
 	fields := parseFields(ts[2])
 	reqs, err := buildRequests(target, fields)
+	if err == errBuilderChanged {
+		return err.Error()
+	}
 	if err != nil {
 		s := errStr(err)
 		if reqs != nil {
@@ -118,4 +173,44 @@ func execSplit(ts []string) string {
 		parts[i] = fmt.Sprintf("%s|%d|%d|%d|%s|%s", r.ServerAddress, r.UnitID, r.StartAddress, reqQuantity(r.Request), hx(bs), strings.Join(names, ","))
 	}
 	return "ok " + strings.Join(parts, ";")
+}
+
+func fluentField(b *modbus.Builder, f modbus.Field) *modbus.BField {
+	var bf *modbus.BField
+	switch f.Type {
+	case modbus.FieldTypeBit:
+		bf = b.Bit(f.Address, f.Bit)
+	case modbus.FieldTypeByte:
+		bf = b.Byte(f.Address, f.FromHighByte)
+	case modbus.FieldTypeUint8:
+		bf = b.Uint8(f.Address, f.FromHighByte)
+	case modbus.FieldTypeInt8:
+		bf = b.Int8(f.Address, f.FromHighByte)
+	case modbus.FieldTypeUint16:
+		bf = b.Uint16(f.Address)
+	case modbus.FieldTypeInt16:
+		bf = b.Int16(f.Address)
+	case modbus.FieldTypeUint32:
+		bf = b.Uint32(f.Address)
+	case modbus.FieldTypeInt32:
+		bf = b.Int32(f.Address)
+	case modbus.FieldTypeUint64:
+		bf = b.Uint64(f.Address)
+	case modbus.FieldTypeInt64:
+		bf = b.Int64(f.Address)
+	case modbus.FieldTypeFloat32:
+		bf = b.Float32(f.Address)
+	case modbus.FieldTypeFloat64:
+		bf = b.Float64(f.Address)
+	case modbus.FieldTypeString:
+		bf = b.String(f.Address, f.Length)
+	case modbus.FieldTypeCoil:
+		bf = b.Coil(f.Address)
+	default:
+		return &modbus.BField{Field: f}
+	}
+	bf.ServerAddress(f.ServerAddress).UnitID(f.UnitID).ByteOrder(f.ByteOrder).Name(f.Name)
+	// attributes the constructor of this type does not take (they are part of the definition the caller handed in)
+	bf.Field.Bit, bf.Field.FromHighByte, bf.Field.Length = f.Bit, f.FromHighByte, f.Length
+	return bf
 }
